@@ -118,8 +118,10 @@ public:
       detail::dynamic_check(ptr != nullptr,                                    \
                             "Pointer arithmetic on a null pointer");           \
       /* increment the target by size of the data structure */                 \
-      auto target =                                                            \
-        reinterpret_cast<uintptr_t>(ptr) opSymbol raw_rhs * sizeof(*impl());   \
+      constexpr bool is_subtract = (#opSymbol[0] == '-');                      \
+      auto target = detail::checked_pointer_offset(                            \
+        reinterpret_cast<uintptr_t>(ptr), raw_rhs, sizeof(*impl()),            \
+        is_subtract);                                                          \
       auto no_overflow = rlbox_sandbox<T_Sbx>::is_in_same_sandbox(             \
         reinterpret_cast<const void*>(ptr),                                    \
         reinterpret_cast<const void*>(target));                                \
@@ -381,8 +383,11 @@ public:
       auto ptr = this->impl().get_raw_value();
 
       // increment the target by size of the data structure
-      auto target =
-        reinterpret_cast<uintptr_t>(ptr) + raw_rhs * sizeof(*this->impl());
+      auto target = detail::checked_pointer_offset(
+        reinterpret_cast<uintptr_t>(ptr),
+        raw_rhs,
+        sizeof(*this->impl()),
+        false /* subtract */);
       auto no_overflow = rlbox_sandbox<T_Sbx>::is_in_same_sandbox(
         ptr, reinterpret_cast<const void*>(target));
       detail::dynamic_check(
